@@ -180,14 +180,14 @@ def oriented (es : List Entry) (isAsc : Bool) : List Entry := if isAsc then es e
 /-- position `p` of the sorted array, as a position of the visiting order. -/
 def opos (es : List Entry) (isAsc : Bool) (p : Nat) : Nat := if isAsc then p else es.length - 1 - p
 
-/-- what a page starting at visiting position `k` contains: the listable boards from there up to the first `stop`. -/
-def window (es : List Entry) (stop : Entry → Bool) (isAsc : Bool) (k : Nat) : List Entry :=
-  (((oriented es isAsc).drop k).takeWhile (fun e => !stop e)).filter listable
+/-- what a page starting at visiting position `k` contains: the kept boards from there up to the first `stop`. -/
+def windowG (ok : Entry → Bool) (es : List Entry) (stop : Entry → Bool) (isAsc : Bool) (k : Nat) : List Entry :=
+  (((oriented es isAsc).drop k).takeWhile (fun e => !stop e)).filter ok
 
-theorem pttLoad_at (es : List Entry) (stop : Entry → Bool) (p : Nat) (hp : p < es.length) (n : Nat) (isAsc : Bool) :
-    pttLoad es stop (Int.ofNat p + 1) (n : Int) isAsc =
-      .ok ⟨(window es stop isAsc (opos es isAsc p)).take n, (window es stop isAsc (opos es isAsc p))[n]?⟩ := by
-  unfold pttLoad window opos oriented
+theorem pttLoadG_at (ok : Entry → Bool) (es : List Entry) (stop : Entry → Bool) (p : Nat) (hp : p < es.length) (n : Nat) (isAsc : Bool) :
+    pttLoadG (gather stop ok) es (Int.ofNat p + 1) (n : Int) isAsc =
+      .ok ⟨(windowG ok es stop isAsc (opos es isAsc p)).take n, (windowG ok es stop isAsc (opos es isAsc p))[n]?⟩ := by
+  unfold pttLoadG windowG opos oriented
   simp only [Int.ofNat_eq_natCast]
   have h1 : ¬ ((p : Int) + 1 = 0 ∧ ¬ isAsc = true) := by omega
   rw [if_neg h1]
@@ -202,35 +202,35 @@ theorem pttLoad_at (es : List Entry) (stop : Entry → Bool) (p : Nat) (hp : p <
   | true =>
     simp only [if_true, h3, if_false, bind, Except.bind, pure, Except.pure, h4, h5, h6, h7]
     rw [gather_eq]
-    have := split_page (((es.drop p).takeWhile (fun e => !stop e)).filter listable) n
+    have := split_page (((es.drop p).takeWhile (fun e => !stop e)).filter ok) n
     rw [← this]; split <;> rfl
   | false =>
     simp only [Bool.false_eq_true, if_false, h3, bind, Except.bind, pure, Except.pure, h4, h5, h6, h7]
     rw [gather_eq, downFrom_eq es p hp]
-    have := split_page (((es.reverse.drop (es.length - 1 - p)).takeWhile (fun e => !stop e)).filter listable) n
+    have := split_page (((es.reverse.drop (es.length - 1 - p)).takeWhile (fun e => !stop e)).filter ok) n
     rw [← this]; split <;> rfl
 
 /-- the first page (`startIdxStr == ""`: start 1 ascending, 0 = "from the last" descending). -/
-theorem pttLoad_first (es : List Entry) (stop : Entry → Bool) (n : Nat) (isAsc : Bool) :
-    pttLoad es stop (if isAsc then 1 else 0) (n : Int) isAsc =
-      .ok ⟨(window es stop isAsc 0).take n, (window es stop isAsc 0)[n]?⟩ := by
+theorem pttLoadG_first (ok : Entry → Bool) (es : List Entry) (stop : Entry → Bool) (n : Nat) (isAsc : Bool) :
+    pttLoadG (gather stop ok) es (if isAsc then 1 else 0) (n : Int) isAsc =
+      .ok ⟨(windowG ok es stop isAsc 0).take n, (windowG ok es stop isAsc 0)[n]?⟩ := by
   cases hes : es with
   | nil =>
     have h2 : ¬ ((n : Int) + 1 < 0) := by omega
     have h0 : ¬ ((0 : Int) = (n : Int) + 1) := by omega
     cases isAsc
-    · simp [pttLoad, window, oriented, gather, h2, h0]; rfl
-    · simp [pttLoad, window, oriented, gather, h2, h0]; rfl
+    · simp [pttLoadG, windowG, oriented, gather, h2, h0]; rfl
+    · simp [pttLoadG, windowG, oriented, gather, h2, h0]; rfl
   | cons e0 rest =>
     rw [← hes]
     have hl : 0 < es.length := by rw [hes]; simp
     cases isAsc with
     | true =>
-      have := pttLoad_at es stop 0 hl n true
+      have := pttLoadG_at ok es stop 0 hl n true
       simp only [opos, if_true] at this
       simpa using this
     | false =>
-      have := pttLoad_at es stop (es.length - 1) (by omega) n false
+      have := pttLoadG_at ok es stop (es.length - 1) (by omega) n false
       simp only [opos, Bool.false_eq_true, if_false] at this
       have e : es.length - 1 - (es.length - 1) = 0 := by omega
       rw [e] at this
@@ -240,7 +240,7 @@ theorem pttLoad_first (es : List Entry) (stop : Entry → Bool) (n : Nat) (isAsc
       have e2 : (if Int.ofNat (es.length - 1) + 1 = 0 ∧ ¬ false = true then Int.ofNat es.length
           else Int.ofNat (es.length - 1) + 1) = Int.ofNat es.length := by
         simp only [Int.ofNat_eq_natCast]; split <;> omega
-      unfold pttLoad
+      unfold pttLoadG
       simp only [e1, e2]
 
 /-! ### following the cursors -/
@@ -270,13 +270,13 @@ theorem takeWhile_drop {α : Type} (q : α → Bool) (l : List α) (j : Nat) (hj
       · simp [List.takeWhile_cons, ha] at hj
 
 /-- the window behind the `m`-th entry of a window. -/
-theorem window_shift (es : List Entry) (stop : Entry → Bool) (isAsc : Bool) (k0 m : Nat)
-    (hm : m < (window es stop isAsc k0).length) :
-    ∃ p', ∃ hp' : p' < (oriented es isAsc).length, (oriented es isAsc)[p'] = (window es stop isAsc k0)[m] ∧
-      window es stop isAsc p' = (window es stop isAsc k0).drop m := by
-  unfold window at hm ⊢
+theorem window_shiftG (ok : Entry → Bool) (es : List Entry) (stop : Entry → Bool) (isAsc : Bool) (k0 m : Nat)
+    (hm : m < (windowG ok es stop isAsc k0).length) :
+    ∃ p', ∃ hp' : p' < (oriented es isAsc).length, (oriented es isAsc)[p'] = (windowG ok es stop isAsc k0)[m] ∧
+      windowG ok es stop isAsc p' = (windowG ok es stop isAsc k0).drop m := by
+  unfold windowG at hm ⊢
   generalize hos : oriented es isAsc = os at hm ⊢
-  obtain ⟨j, hj, h1, h2⟩ := filter_position listable ((os.drop k0).takeWhile (fun e => !stop e)) m hm
+  obtain ⟨j, hj, h1, h2⟩ := filter_position ok ((os.drop k0).takeWhile (fun e => !stop e)) m hm
   have hjl : j < (os.drop k0).length := Nat.lt_of_lt_of_le hj (List.takeWhile_sublist _).length_le
   have hkj : k0 + j < os.length := by simp at hjl; omega
   refine ⟨k0 + j, hkj, ?_, ?_⟩
@@ -288,19 +288,19 @@ theorem liftM_ok {α : Type} (x : M α) (a : α) (h : x = .ok a) : liftM x = .ok
 
 /-- a listing whose first page is the window at visiting position `k0`, and whose page behind the cursor of the
 entry at sorted position `p` is `pttLoad` from `p + 1`, pages through exactly that window. -/
-theorem walk_listing (es : List Entry) (stop : Entry → Bool) (load : Option Cursor → R Page) (by_ : SortBy)
+theorem walk_listingG (ok : Entry → Bool) (es : List Entry) (stop : Entry → Bool) (load : Option Cursor → R Page) (by_ : SortBy)
     (isAsc : Bool) (n : Nat) (hn : 1 ≤ n) (k0 : Nat)
-    (hfirst : load none = .ok ⟨(window es stop isAsc k0).take n, (window es stop isAsc k0)[n]?⟩)
-    (hat : ∀ p (hp : p < es.length), listable es[p] = true →
-      load (some (cursorOf es[p])) = liftM (pttLoad es stop (Int.ofNat p + 1) (n : Int) isAsc))
-    (Hc : ∀ e ∈ es, listable e = true → ∀ items, nextCursor by_ ⟨items, some e⟩ = some (cursorOf e)) :
+    (hfirst : load none = .ok ⟨(windowG ok es stop isAsc k0).take n, (windowG ok es stop isAsc k0)[n]?⟩)
+    (hat : ∀ p (hp : p < es.length), ok es[p] = true →
+      load (some (cursorOf es[p])) = liftM (pttLoadG (gather stop ok) es (Int.ofNat p + 1) (n : Int) isAsc))
+    (Hc : ∀ e ∈ es, ok e = true → ∀ items, nextCursor by_ ⟨items, some e⟩ = some (cursorOf e)) :
     walkFrom load by_ (walkFuel es.length) none =
-      .ok (pagesOf n (window es stop isAsc k0).length (window es stop isAsc k0)) := by
-  generalize hV : window es stop isAsc k0 = V at hfirst ⊢
-  have hsub : ∀ e ∈ V, e ∈ es ∧ listable e = true := by
+      .ok (pagesOf n (windowG ok es stop isAsc k0).length (windowG ok es stop isAsc k0)) := by
+  generalize hV : windowG ok es stop isAsc k0 = V at hfirst ⊢
+  have hsub : ∀ e ∈ V, e ∈ es ∧ ok e = true := by
     intro e he
     rw [← hV] at he
-    unfold window at he
+    unfold windowG at he
     have h1 := List.mem_filter.mp he
     refine ⟨?_, h1.2⟩
     have h2 := List.mem_of_mem_drop ((List.takeWhile_sublist _).subset h1.1)
@@ -310,7 +310,7 @@ theorem walk_listing (es : List Entry) (stop : Entry → Bool) (load : Option Cu
     · exact List.mem_reverse.mp h2
   have hlen : V.length ≤ es.length := by
     rw [← hV]
-    unfold window
+    unfold windowG
     calc _ ≤ ((oriented es isAsc).drop k0 |>.takeWhile (fun e => !stop e)).length := List.length_filter_le _ _
       _ ≤ ((oriented es isAsc).drop k0).length := (List.takeWhile_sublist _).length_le
       _ ≤ (oriented es isAsc).length := by simp
@@ -320,9 +320,9 @@ theorem walk_listing (es : List Entry) (stop : Entry → Bool) (load : Option Cu
   · simpa using this
   · -- the page behind the cursor of `V[m]`
     intro m hm
-    have hm' : m < (window es stop isAsc k0).length := by rw [hV]; exact hm
-    obtain ⟨p', hp', h1, h2⟩ := window_shift es stop isAsc k0 m hm'
-    have hVm : (window es stop isAsc k0)[m] = V[m] := by simp [hV]
+    have hm' : m < (windowG ok es stop isAsc k0).length := by rw [hV]; exact hm
+    obtain ⟨p', hp', h1, h2⟩ := window_shiftG ok es stop isAsc k0 m hm'
+    have hVm : (windowG ok es stop isAsc k0)[m] = V[m] := by simp [hV]
     rw [hVm] at h1
     rw [hV] at h2
     have hos : (oriented es isAsc).length = es.length := by unfold oriented; split <;> simp
@@ -341,9 +341,34 @@ theorem walk_listing (es : List Entry) (stop : Entry → Bool) (load : Option Cu
         rw [← this]; exact h1
     have hl := (hsub _ (List.getElem_mem hm)).2
     rw [← hpe] at hl ⊢
-    rw [hat p hp hl, liftM_ok _ _ (pttLoad_at es stop p hp n isAsc), hop, h2]
+    rw [hat p hp hl, liftM_ok _ _ (pttLoadG_at ok es stop p hp n isAsc), hop, h2]
   · intro e he items
     exact Hc e (hsub e he).1 (hsub e he).2 items
+
+/-! the instances for ptt.LoadGeneralBoards / LoadAutoCompleteBoards (`ok = listable`) -/
+
+def window (es : List Entry) (stop : Entry → Bool) (isAsc : Bool) (k : Nat) : List Entry :=
+  windowG listable es stop isAsc k
+
+theorem pttLoad_at (es : List Entry) (stop : Entry → Bool) (p : Nat) (hp : p < es.length) (n : Nat) (isAsc : Bool) :
+    pttLoad es stop (Int.ofNat p + 1) (n : Int) isAsc =
+      .ok ⟨(window es stop isAsc (opos es isAsc p)).take n, (window es stop isAsc (opos es isAsc p))[n]?⟩ :=
+  pttLoadG_at listable es stop p hp n isAsc
+
+theorem pttLoad_first (es : List Entry) (stop : Entry → Bool) (n : Nat) (isAsc : Bool) :
+    pttLoad es stop (if isAsc then 1 else 0) (n : Int) isAsc =
+      .ok ⟨(window es stop isAsc 0).take n, (window es stop isAsc 0)[n]?⟩ :=
+  pttLoadG_first listable es stop n isAsc
+
+theorem walk_listing (es : List Entry) (stop : Entry → Bool) (load : Option Cursor → R Page) (by_ : SortBy)
+    (isAsc : Bool) (n : Nat) (hn : 1 ≤ n) (k0 : Nat)
+    (hfirst : load none = .ok ⟨(window es stop isAsc k0).take n, (window es stop isAsc k0)[n]?⟩)
+    (hat : ∀ p (hp : p < es.length), listable es[p] = true →
+      load (some (cursorOf es[p])) = liftM (pttLoad es stop (Int.ofNat p + 1) (n : Int) isAsc))
+    (Hc : ∀ e ∈ es, listable e = true → ∀ items, nextCursor by_ ⟨items, some e⟩ = some (cursorOf e)) :
+    walkFrom load by_ (walkFuel es.length) none =
+      .ok (pagesOf n (window es stop isAsc k0).length (window es stop isAsc k0)) :=
+  walk_listingG listable es stop load by_ isAsc n hn k0 hfirst hat Hc
 
 /-! ### the by-name and by-class listings -/
 
@@ -351,7 +376,7 @@ theorem walk_listing (es : List Entry) (stop : Entry → Bool) (load : Option Cu
 def visible (es : List Entry) (isAsc : Bool) : List Entry := (oriented es isAsc).filter listable
 
 theorem window_nostop (es : List Entry) (isAsc : Bool) : window es (fun _ => false) isAsc 0 = visible es isAsc := by
-  unfold window visible
+  unfold window windowG visible
   have : ∀ l : List Entry, l.takeWhile (fun _ => true) = l := by
     intro l; induction l with
     | nil => rfl
@@ -506,7 +531,7 @@ theorem walkGeneral_class (t : Tbl) (H : ClassView t) (n : Nat) (h1 : 1 ≤ n) (
 /-- the cursor of a listable board of the by-name view resolves to that board's position. -/
 theorem startOfCursor_name_self (t : Tbl) (hn : NamesLen t.nameLen t.byName)
     (hv : ∀ e ∈ t.byName, e.bid + 1 ≤ t.maxBoard) (S : SortedBy lexCmp nkey t.byName) (D : DistinctNames t.byName)
-    (p : Nat) (hp : p < t.byName.length) (hl : listable t.byName[p] = true) (isAsc : Bool) :
+    (p : Nat) (hp : p < t.byName.length) (hne : nkey t.byName[p] ≠ []) (isAsc : Bool) :
     startOfCursor t .name (some (cursorOf t.byName[p])) isAsc = .ok (Int.ofNat p + 1) := by
   obtain ⟨q, hq⟩ : ∃ q, q = copyInto t.nameLen (cursorOf t.byName[p]).name := ⟨_, rfl⟩
   have hlow : low q = nkey t.byName[p] := by
@@ -514,7 +539,7 @@ theorem startOfCursor_name_self (t : Tbl) (hn : NamesLen t.nameLen t.byName)
   have Mn : Mono (cmpNameP q) t.byName :=
     mono_of_sorted lexLaws nkey (low q) (cmpNameP q) t.byName (fun e _ => cmpNameP_sign q e) S
   have U : Unique0 (cmpNameP q) t.byName := by
-    apply unique0_of_key _ _ (nkey t.byName[p]) (listable_nkey_ne _ hl) _ D
+    apply unique0_of_key _ _ (nkey t.byName[p]) hne _ D
     intro e _ h0
     have := (lexCmp_eq_iff _ _).mp ((cmpNameP_sign q e).2.1.mp h0)
     rw [← this, hlow]
@@ -672,7 +697,7 @@ theorem loadAuto_cursor (t : Tbl) (hn : NamesLen t.nameLen t.byName)
       liftM (pttLoad t.byName (notPrefixed kw) (Int.ofNat p + 1) (n : Int) isAsc) := by
   unfold loadAuto
   simp only [bind, Except.bind, pure, Except.pure]
-  rw [startOfCursor_name_self t hn hv S D p hp hl isAsc]
+  rw [startOfCursor_name_self t hn hv S D p hp (listable_nkey_ne _ hl) isAsc]
   simp only
   rw [if_neg (by simp only [Int.ofNat_eq_natCast]; omega)]
 
@@ -691,7 +716,7 @@ theorem walkAuto_found (t : Tbl) (kw : List Nat) (h0 : ∀ x ∈ kw, x ≠ 0) (h
   have hk0' : opos t.byName isAsc f < t.byName.length := by rw [← oriented_length t.byName isAsc]; exact hk0
   have hoo : opos t.byName isAsc (opos t.byName isAsc f) = f := by unfold opos; split <;> omega
   have hW : window t.byName (notPrefixed kw) isAsc (opos t.byName isAsc f) = visibleAuto kw t.byName isAsc := by
-    unfold window visibleAuto
+    unfold window windowG visibleAuto
     have hfun : (fun e => !notPrefixed kw e) = pref kw := by
       funext e; simp [notPrefixed_eq]
     rw [hfun]
@@ -774,5 +799,110 @@ theorem walkAuto_eq (t : Tbl) (kw : List Nat) (h0 : ∀ x ∈ kw, x ≠ 0) (hn :
       · rw [hstart]
         simp only [specAuto, Bool.false_eq_true, if_false, h1']
         rw [if_neg (by simp only [Int.ofNat_eq_natCast]; omega)]
+
+/-! ### the cursor of a board resolves to that board (by class); bbs.LoadGeneralBoardDetails -/
+
+/-- the by-class cursor `(C string of Title[:4], name)` that the bbs layer serialises for the board at position `p`
+of the by-class view resolves to `p + 1`, in both directions. -/
+theorem startOfCursor_class_self (t : Tbl) (H : ClassView t) (p : Nat) (hp : p < t.byClass.length)
+    (hne : nkey t.byClass[p] ≠ []) (isAsc : Bool) :
+    startOfCursor t .cls (some (cursorOf t.byClass[p])) isAsc = .ok (Int.ofNat p + 1) := by
+  obtain ⟨q, hq⟩ : ∃ q, q = copyInto t.nameLen (cursorOf t.byClass[p]).name := ⟨_, rfl⟩
+  obtain ⟨cls, hcls⟩ : ∃ cls, cls = (cursorOf t.byClass[p]).cls := ⟨_, rfl⟩
+  have hlow : low q = nkey t.byClass[p] := by
+    rw [hq]; exact low_cursor_name t.nameLen _ (H.names _ (List.getElem_mem hp))
+  have hQ : (cstr cls, low q) = ckey t.byClass[p] := by
+    rw [hcls, hlow]; unfold ckey cursorOf nkey; simp only [cstr_idem]
+  have hs : ∀ e ∈ t.byClass, (cmpClassP cls q e < 0 ↔ cmpC (cstr cls, low q) (ckey e) = .lt) ∧
+      (cmpClassP cls q e = 0 ↔ cmpC (cstr cls, low q) (ckey e) = .eq) ∧
+      (0 < cmpClassP cls q e ↔ cmpC (cstr cls, low q) (ckey e) = .gt) :=
+    fun e he => cmpClassP_sign cls q e (H.classOK e he)
+  have Mn : Mono (cmpClassP cls q) t.byClass :=
+    mono_of_sorted classLaws ckey (cstr cls, low q) (cmpClassP cls q) t.byClass hs H.sorted
+  have U : Unique0 (cmpClassP cls q) t.byClass := by
+    apply unique0_of_key _ _ (nkey t.byClass[p]) hne _ H.distinct
+    intro e he h0
+    have := (classLaws.eq_iff _ _).mp ((hs e he).2.1.mp h0)
+    rw [hQ] at this
+    have h2 : (ckey t.byClass[p]).2 = (ckey e).2 := by rw [this]
+    exact h2.symm
+  have h0 : cmpClassP cls q t.byClass[p] = 0 := by
+    apply (hs _ (List.getElem_mem hp)).2.1.mpr
+    rw [hQ]; exact classLaws.refl _
+  have hf := findIdx_self t.maxBoard (cmpClass cls q) (cmpClassP cls q) (cmpClass_eq cls q) t.byClass Mn H.valid U p hp
+    h0 isAsc
+  unfold startOfCursor
+  simp only
+  have hna : (cursorOf t.byClass[p]).name.contains 64 = false := H.noAt _ (List.getElem_mem hp)
+  rw [hna]
+  simp only [Bool.false_eq_true, if_false]
+  rw [← hq, ← hcls, liftM_ok _ _ hf]
+
+theorem mem_oriented {es : List Entry} {isAsc : Bool} {e : Entry} (h : e ∈ oriented es isAsc) : e ∈ es := by
+  unfold oriented at h
+  split at h
+  · exact h
+  · exact List.mem_reverse.mp h
+
+theorem detailOK_cstr_ne (maxBoard : Nat) (e : Entry) (h : detailOK maxBoard e = true) : cstr e.b.name ≠ [] := by
+  unfold detailOK at h
+  simp only [Bool.and_eq_true, bne_iff_ne, ne_eq] at h
+  intro hc
+  cases hn : e.b.name with
+  | nil => rw [hn] at h; simp at h
+  | cons x xs =>
+    rw [hn] at h hc
+    rw [cstr_cons] at hc
+    simp only [List.getD_cons_zero] at h
+    rw [if_neg h.2] at hc
+    cases hc
+
+theorem detailOK_nkey_ne (maxBoard : Nat) (e : Entry) (h : detailOK maxBoard e = true) : nkey e ≠ [] := by
+  have := detailOK_cstr_ne maxBoard e h
+  unfold nkey low
+  intro hc
+  exact this (List.map_eq_nil_iff.mp hc)
+
+/-- the slots a complete walk of LoadGeneralBoardDetails must return: every non-vacated slot, in visiting order. -/
+def visibleDetails (maxBoard : Nat) (es : List Entry) (isAsc : Bool) : List Entry :=
+  (oriented es isAsc).filter (detailOK maxBoard)
+
+/-- paging bbs.LoadGeneralBoardDetails (code after 6f287ee): if the cursor of every non-vacated slot resolves to that
+slot, the walk returns every non-vacated slot of the view once, in visiting order, and ends — vacated slots may sit
+anywhere in the view. -/
+theorem walk_details (t : Tbl) (by_ : SortBy)
+    (hres : ∀ p (hp : p < (t.view by_).length), nkey (t.view by_)[p] ≠ [] → ∀ (isAsc : Bool),
+      startOfCursor t by_ (some (cursorOf (t.view by_)[p])) isAsc = .ok (Int.ofNat p + 1))
+    (n : Nat) (h1 : 1 ≤ n) (isAsc : Bool) :
+    walkDetails t by_ (n : Int) isAsc =
+      .ok (pagesOf n (visibleDetails t.maxBoard (t.view by_) isAsc).length (visibleDetails t.maxBoard (t.view by_) isAsc)) := by
+  generalize hes : t.view by_ = es at hres ⊢
+  have hw : windowG (detailOK t.maxBoard) es (fun _ => false) isAsc 0 = visibleDetails t.maxBoard es isAsc := by
+    unfold windowG visibleDetails
+    have : ∀ l : List Entry, l.takeWhile (fun _ => true) = l := by
+      intro l; induction l with
+      | nil => rfl
+      | cons a r ih => simp [List.takeWhile_cons, ih]
+    simp [this]
+  unfold walkDetails
+  rw [hes, ← hw]
+  apply walk_listingG (detailOK t.maxBoard) es (fun _ => false) _ by_ isAsc n h1 0
+  · show loadDetails t by_ none (n : Int) isAsc = _
+    unfold loadDetails startOfCursor
+    simp only [bind, Except.bind, pure, Except.pure]
+    rw [if_neg (by split <;> omega), hes]
+    exact liftM_ok _ _ (pttLoadG_first (detailOK t.maxBoard) es (fun _ => false) n isAsc)
+  · intro p hp hok
+    show loadDetails t by_ (some (cursorOf es[p])) (n : Int) isAsc = _
+    unfold loadDetails
+    simp only [bind, Except.bind, pure, Except.pure]
+    rw [hres p hp (detailOK_nkey_ne _ _ hok) isAsc]
+    simp only
+    rw [if_neg (by simp only [Int.ofNat_eq_natCast]; omega), hes]
+    rfl
+  · intro e _ hok items
+    cases by_ with
+    | name => simp only [nextCursor]; rw [if_neg (detailOK_cstr_ne _ e hok)]
+    | cls => rfl
 
 end PttVerif.C11
